@@ -1095,6 +1095,9 @@ pub fn run_thr(case: &Case, dir: PathBuf) -> Outcome {
                     violation = Some(Violation::new("lost-update", format!("single-writer transactions are not explained by any serial order: {}", r.explanation)));
                 }
             }
+            // C04 / C12 / C16 thread runs are judged by handle identity and the reopen check
+            // above; whether concurrent reads and writes are linearizable is C14's verdict
+            "C04" => {}
             _ => {
                 let r = lin::check(&initial, &events, 3_000_000);
                 stats.add("lin_states_explored", r.explored);
